@@ -895,7 +895,7 @@ var targets = []targetT{
 }
 
 var queries = []string{"a=ONE&a=TWO&b=x", "a=ONE&a=TWO&b=three", "a=one&b=Two&c=%54hree&a=", "a=x&b=x", "a=1&a=2&a=3&b=4&c=5&d=6",
-	"a=ONE&a=one&a=One&b=ONE", "a=6F6e65&a=zz&b=4f4E45", "a=%20x%20&a=x&b=+x+", "a=A&A=a&b=B&B=b", "a=Hello%20World&a=HELLO+WORLD&b=hello%20world"}
+	"a=ONE&a=one&a=One&b=ONE", "a=6F6e65&a=zz&b=4f4E45", "a=%20x%20&a=x&b=+x+", "a=A&b=a&c=B&d=b&a=B", "a=Hello%20World&a=HELLO+WORLD&b=hello%20world"}
 var bodies = []string{"", "", "a=four&d=FIVE", "e=1&f=2&a=two", "a=ONE&a=TWO", "b=x&a=ONE"}
 
 func genWAF(r *rand.Rand) caseJSON {
@@ -923,7 +923,7 @@ func genWAF(r *rand.Rand) caseJSON {
 			if used[t.Col] {
 				continue
 			}
-			if strings.HasPrefix(t.S, "MATCHED_VAR") && !(prevSingle && i > 0 && cj.Rules[i-1].Phase == phase) {
+			if strings.HasPrefix(t.S, "MATCHED_VAR") && !(len(ts) == 0 && prevSingle && i > 0 && cj.Rules[i-1].Phase == phase) {
 				// MATCHED_VAR after a rule that matched several keys depends on hash order (C04's finding F26)
 				continue
 			}
